@@ -120,6 +120,9 @@ def catalogue():
     add(kind='numpy', shape=(12, 7, 1100), bpv=4, il=(0, 1), xl=(0, 1), dt_us=1000, t0=-200)
     add(kind='numpy', shape=(13, 10, 2100), bpv=2, il=(1000, 10), xl=(3, 7))
     add(kind='numpy', shape=(2, 3, 40), bpv=8)
+    # line numbers that are large compared with their increment (a coordinate lookup with a RELATIVE tolerance would take a
+    # neighbouring line, or accept a value off the axis)
+    add(kind='numpy', shape=(12, 9, 40), bpv=8, il=(200000, 1), xl=(3000000, -2))
     add(kind='numpy', shape=(4, 4, 256), bpv=8, il=(-4, 1), xl=(-1, 1))
     add(kind='numpy', shape=(6, 5, 4200), bpv=0.5, dt_us=2000)
     add(kind='numpy', shape=(4, 4, 300), bpv=16, dt_us=333)                       # D7h: start time between milliseconds
